@@ -30,7 +30,8 @@ ASSUMPTIONS = ["exact equality of all float outputs is required (same operations
                "add_gc is judged for greedy, balanced, balanced_market, peak_load_window, peak_shaving, distributed "
                "(flex_window and schedule support one connector only)"]
 UNPROVED = ["absence of hidden state in the Python objects cannot be exhibited by a pure model; it is decided by paired "
-            "real runs only"]
+            "real runs only; the isolation theorem is proved for the greedy/balanced step model (and per connector for "
+            "distributed under C14), for the other strategies isolation is decided by the add_gc runs"]
 
 VARIANTS = ["same", "rerun", "sequence", "shift", "add_gc"]
 INDEPENDENT = ["greedy", "balanced", "balanced_market", "peak_load_window", "peak_shaving", "distributed"]
